@@ -235,7 +235,7 @@ def _n(got, want):
 
 def describe(tier):
     return {
-        "alphabet": "FCB/FDB lists over element kinds {}; FCC over delimiters {} and strings over {}; RMB n; EQU/ORG/SETDP/NAM/END/INCLUDE".format(
+        "alphabet": "FCB/FDB lists over element kinds {}; FCC over delimiters {} and strings over {}; RMB n; EQU/ORG/SETDP/NAM/END/INCLUDE; explicit lists with -0, $00, $0000, 007".format(
             [e[0] for e in ELEMS], DELIMS, STR_ALPHA),
         "bound": "FCB/FDB: all lists of length 1-2 (3: " + ("all" if tier == "thorough" else "a fixed 1/4 stride plus all with <=2 distinct kinds") +
                  "), homogeneous lists with one odd element at first/middle/last for every length 4..64; FCC: all strings of length <= " +
